@@ -63,30 +63,59 @@ impl T {
     }
 }
 
-/// Sizes of the canonical BGZF read pattern (cycled). `F(n)` = `fill_buf` + `consume(min(n, window))`,
-/// `R(n)` = `read` into an `n`-byte buffer (n ≥ 65536 takes the reader's direct-to-caller path).
-#[derive(Clone, Copy)]
-enum Op {
-    R(usize),
-    F(usize),
+/// One call of the canonical BGZF read pattern: `Read(n)` = `read` into an `n`-byte buffer (n ≥ 65536 takes the
+/// reader's direct-to-caller path when a block boundary has been reached), `FillConsume(n)` = `fill_buf` +
+/// `consume(min(n, window))`.
+#[derive(Clone, Copy, Debug, PartialEq, Eq)]
+pub enum BgzfReadOp {
+    Read(usize),
+    FillConsume(usize),
 }
 
-const BGZF_PATTERN: &[Op] = &[
-    Op::R(1),
-    Op::R(2),
-    Op::R(7),
-    Op::F(5),
-    Op::R(64),
-    Op::R(300),
-    Op::F(usize::MAX),
-    Op::R(4096),
-    Op::R(65536),
-    Op::R(13),
-    Op::R(70000),
-    Op::F(1),
-    Op::R(5),
-    Op::R(65536),
+/// The pattern the `Kind::Bgzf` driver cycles through (public so that an async twin can issue the same calls).
+pub const BGZF_READ_PATTERN: &[BgzfReadOp] = &[
+    BgzfReadOp::Read(1),
+    BgzfReadOp::Read(2),
+    BgzfReadOp::Read(7),
+    BgzfReadOp::FillConsume(5),
+    BgzfReadOp::Read(64),
+    BgzfReadOp::Read(300),
+    BgzfReadOp::FillConsume(usize::MAX),
+    BgzfReadOp::Read(4096),
+    BgzfReadOp::Read(65536),
+    BgzfReadOp::Read(13),
+    BgzfReadOp::Read(70000),
+    BgzfReadOp::FillConsume(1),
+    BgzfReadOp::Read(5),
+    BgzfReadOp::Read(65536),
 ];
+
+/// Running digest behind the `D:` elements.
+#[derive(Clone, Debug)]
+pub struct ByteDigest {
+    h: u64,
+    total: u64,
+}
+
+impl Default for ByteDigest {
+    fn default() -> Self {
+        ByteDigest { h: 0xcbf2_9ce4_8422_2325, total: 0 }
+    }
+}
+
+impl ByteDigest {
+    pub fn update(&mut self, bytes: &[u8]) {
+        for &b in bytes {
+            self.h ^= b as u64;
+            self.h = self.h.wrapping_mul(0x0000_0100_0000_01B3);
+        }
+        self.total += bytes.len() as u64;
+    }
+
+    pub fn element(&self) -> String {
+        format!("D:{:016x}:{}", self.h, self.total)
+    }
+}
 
 /// Upper bound on consecutive `Interrupted` results the Bgzf driver retries (the `Read` contract says
 /// "retry"; vcore's adversary delivers at most one per source offset).
@@ -155,8 +184,8 @@ pub(crate) fn drive(kind: Kind, variant: Variant, src: Src<'_>, side: &Side, dee
         (Kind::Crai, s) => match variant {
             // record-wise is the primary reading: `read_index()` fails on every index with more than one
             // record on the pinned tree (its line buffer is never cleared)
-            Variant::Primary => drive_crai_records(s.read()),
-            _ => index_result(cram::crai::io::Reader::new(s.read()).read_index()),
+            Variant::Eager => index_result(cram::crai::io::Reader::new(s.read()).read_index()),
+            _ => drive_crai_records(s.read()),
         },
     }
 }
@@ -211,16 +240,15 @@ fn index_result<I: std::fmt::Debug>(r: io::Result<I>) -> Vec<String> {
 fn drive_bgzf(src: Box<dyn Read + '_>) -> Vec<String> {
     let mut t = T::new();
     let mut r = bgzf::io::Reader::new(src);
-    let mut h: u64 = 0xcbf2_9ce4_8422_2325;
-    let mut total: u64 = 0;
+    let mut digest = ByteDigest::default();
     let mut buf = vec![0u8; 70000];
     let mut i = 0usize;
     let mut retries = 0usize;
     loop {
-        let op = BGZF_PATTERN[i % BGZF_PATTERN.len()];
+        let op = BGZF_READ_PATTERN[i % BGZF_READ_PATTERN.len()];
         let res: io::Result<usize> = match op {
-            Op::R(n) => r.read(&mut buf[..n]),
-            Op::F(n) => match r.fill_buf() {
+            BgzfReadOp::Read(n) => r.read(&mut buf[..n]),
+            BgzfReadOp::FillConsume(n) => match r.fill_buf() {
                 Ok(w) => {
                     let k = w.len().min(n);
                     buf[..k].copy_from_slice(&w[..k]);
@@ -235,12 +263,8 @@ fn drive_bgzf(src: Box<dyn Read + '_>) -> Vec<String> {
             Ok(n) => {
                 retries = 0;
                 i += 1;
-                for &b in &buf[..n] {
-                    h ^= b as u64;
-                    h = h.wrapping_mul(0x0000_0100_0000_01B3);
-                }
-                total += n as u64;
-                t.push(format!("D:{h:016x}:{total}"));
+                digest.update(&buf[..n]);
+                t.push(digest.element());
                 t.push(format!("V:{}", u64::from(r.virtual_position())));
             }
             Err(e) if e.kind() == io::ErrorKind::Interrupted && retries < MAX_INTERRUPT_RETRIES => {
@@ -564,16 +588,7 @@ fn drive_cram(src: Box<dyn Read + '_>, side: &Side, variant: Variant, deep: bool
                 match r.read_container(&mut container) {
                     Ok(0) => return t.end(),
                     Ok(n) => {
-                        let h = container.header();
-                        t.push(format!(
-                            "C:len={n};ctx={:?};records={};counter={};bases={};blocks={};landmarks={:?}",
-                            h.reference_sequence_context(),
-                            h.record_count(),
-                            h.record_counter(),
-                            h.base_count(),
-                            h.block_count(),
-                            h.landmarks()
-                        ));
+                        t.push(render::cram_container(n, &container));
                         let ch = match container.compression_header() {
                             Ok(c) => c,
                             Err(e) => return t.err(&e),
@@ -629,12 +644,7 @@ fn drive_fasta(b: &mut dyn BufRead) -> Vec<String> {
         }
         seq.clear();
         match r.read_sequence(&mut seq) {
-            Ok(_) => t.push(format!(
-                "R:{}\t{}\t{}",
-                esc(def.name()),
-                def.description().map(|d| esc(d)).unwrap_or_else(|| "<none>".into()),
-                esc(&seq)
-            )),
+            Ok(_) => t.push(render::fasta_element(def.name(), def.description().map(|d| -> &[u8] { d.as_ref() }), &seq)),
             Err(e) => return t.err(&e),
         }
     }
@@ -645,12 +655,7 @@ fn drive_fasta_records(b: &mut dyn BufRead) -> Vec<String> {
     let mut r = fasta::io::Reader::new(b);
     for res in r.records() {
         match res {
-            Ok(rec) => t.push(format!(
-                "R:{}\t{}\t{}",
-                esc(rec.name()),
-                rec.description().map(|d| esc(d)).unwrap_or_else(|| "<none>".into()),
-                esc(rec.sequence().as_ref())
-            )),
+            Ok(rec) => t.push(render::fasta_element(rec.name(), rec.description().map(|d| -> &[u8] { d.as_ref() }), rec.sequence().as_ref())),
             Err(e) => return t.err(&e),
         }
     }
@@ -669,15 +674,7 @@ fn drive_fasta_indexer(b: &mut dyn BufRead) -> Vec<String> {
     }
 }
 
-fn fastq_record(rec: &fastq::Record) -> String {
-    format!(
-        "R:{}\t{}\t{}\t{}",
-        esc(rec.name()),
-        esc(rec.description()),
-        esc(rec.sequence()),
-        esc(rec.quality_scores())
-    )
-}
+use render::fastq_element as fastq_record;
 
 fn drive_fastq(b: &mut dyn BufRead) -> Vec<String> {
     let mut t = T::new();
